@@ -47,6 +47,8 @@ def child_env(repo, cache_dir, hashseed='0', extra=None):
     env['NUMBA_CACHE_DIR'] = os.path.join(cache_dir, 'numba')
     env['PYTHONDONTWRITEBYTECODE'] = '1'
     env['MPLBACKEND'] = 'Agg'
+    for k in ('OMP_NUM_THREADS', 'OPENBLAS_NUM_THREADS', 'MKL_NUM_THREADS', 'NUMBA_NUM_THREADS', 'NUMEXPR_NUM_THREADS'):
+        env[k] = '1'
     env.pop('PYTHONSTARTUP', None)
     if extra:
         env.update({k: str(v) for k, v in extra.items()})
@@ -223,6 +225,8 @@ class Run:
                                      sum(h['count'] for h in kf_hits.values()), len(unlisted),
                                      time.time() - self.t0))
         if os.environ.get('VERIF_DEBUG'):
+            print('  DEBUG worker wall_s:', sorted([(r.get('wall_s'), r.get('task')) for r in self.results],
+                                                  key=lambda t: -(t[0] or 0))[:4])
             brk = {}
             for v in unlisted:
                 k = (v.get('symptom'), tuple(sorted(set(v.get('flags', [])) & S.EXOTIC)))
